@@ -158,7 +158,7 @@ std::string gen_str(vh::Rng& r, bool allow_long = true) {
     if (d < 62) len = static_cast<size_t>(LENS[r.below(sizeof(LENS) / sizeof(LENS[0]))]);
     else if (d < 88) len = static_cast<size_t>(r.range(0, 40));
     else if (d < 99 || !allow_long) len = static_cast<size_t>(r.range(66, 300));
-    else len = static_cast<size_t>(r.range(301, 1200));
+    else len = r.chance(1, 3) ? osmium::max_osm_string_length : static_cast<size_t>(r.range(301, osmium::max_osm_string_length));   // longer strings are refused (documented)
     std::string s(len, 'x');
     for (auto& c : s) {
         c = r.below(12) == 0 ? static_cast<char>(r.range(0x80, 0xff)) : static_cast<char>(r.range(0x20, 0x7e));
@@ -237,6 +237,8 @@ MObj gen_obj(vh::Rng& r, TopKind kind, bool in_pool) {
         o.id = gen_u32(r);
         o.created = gen_u32(r); o.closed = gen_u32(r); o.num_changes = gen_u32(r); o.num_comments = gen_u32(r);
         o.bx1 = gen_coord(r); o.by1 = gen_coord(r); o.bx2 = gen_coord(r); o.by2 = gen_coord(r);
+        if (o.bx1 > o.bx2) std::swap(o.bx1, o.bx2);   // precondition of osmium::Box
+        if (o.by1 > o.by2) std::swap(o.by1, o.by2);
     } else {
         o.version = gen_u32(r) & 0x7fffffffU;
         o.visible = !r.chance(1, 4);
@@ -692,16 +694,10 @@ struct Cmp {
             for (const auto& s : m.subs) { outers += s.kind == S_OUTER; inners += s.kind == S_INNER; }
             const auto nr = ar.num_rings();
             if (nr.first != outers || nr.second != inners) return bad("area num_rings");
-            // inner_rings(outer) is defined for the inner rings following that outer ring
-            bool tags_between = false;
-            for (size_t k = 0; k + 1 < m.subs.size(); ++k) {
-                if (m.subs[k].kind == S_TAGS && k > 0 && m.subs[k - 1].kind != S_TAGS) tags_between = true;
-            }
             for (const auto& outer : ar.outer_rings()) {
                 const MSub* mo = next_ring(S_OUTER);
                 if (!mo) return bad("area outer rings");
                 if (!nodes(outer, mo->nodes)) return false;
-                if (tags_between) continue;   // not judged: TagList between the rings
                 for (const auto& inner : ar.inner_rings(outer)) {
                     const MSub* mi = next_ring(S_INNER);
                     if (!mi) return bad("area inner rings");
